@@ -181,7 +181,240 @@ def generate(snap):
     return "\n".join(lines) + "\n", [], infos
 
 
+# =====================================================================
+# C04 -- table-level facts: cache.cc / cache.h / cache_hash.h -> coq/Gen/CacheTable.v
+# =====================================================================
+def _norm(x):
+    return " ".join(x.split())
+
+
+def _conjuncts(e):
+    """split a && b && c at top level"""
+    out, depth, cur = [], 0, ""
+    i = 0
+    while i < len(e):
+        c = e[i]
+        if c in "([":
+            depth += 1
+        elif c in ")]":
+            depth -= 1
+        if depth == 0 and e.startswith("&&", i):
+            out.append(cur.strip())
+            cur = ""
+            i += 2
+            continue
+        cur += c
+        i += 1
+    out.append(cur.strip())
+    return [x for x in out if x]
+
+
+def _eq_sides(c):
+    m = re.fullmatch(r"(.+?)\s*==\s*(.+)", c)
+    return (m.group(1).strip(), m.group(2).strip()) if m else None
+
+
+def table_facts(snap):
+    """returns (facts dict, problems)"""
+    pr = []
+    f = {}
+    with open(os.path.join(snap, "kernel", "cache.cc")) as fh:
+        cc = strip_comments(strip_preprocessor_hooks(fh.read()))
+    with open(os.path.join(snap, "kernel", "cache_hash.h")) as fh:
+        hh = strip_comments(fh.read())
+    # ---- hash_t::operator== and empty()
+    m = re.search(r"bool\s+operator==\s*\(\s*hash_t\s+(\w+)\s*\)\s*const\s*\{\s*return\s+(.*?);\s*\}", hh, re.S)
+    f["eq_half0"] = f["eq_half1"] = False
+    if not m:
+        pr.append("hash_t::operator== not found")
+    else:
+        o = m.group(1)
+        for c in _conjuncts(_norm(m.group(2))):
+            sd = _eq_sides(c)
+            ok = False
+            for i in (0, 1):
+                if sd and set(sd) == {"data[%d]" % i, "%s.data[%d]" % (o, i)}:
+                    f["eq_half%d" % i] = True
+                    ok = True
+            if not ok:
+                pr.append("hash_t::operator==: conjunct %r outside subset" % c)
+    m = re.search(r"bool\s+empty\s*\(\s*\)\s*const\s*\{\s*return\s+(.*?);\s*\}", hh, re.S)
+    f["empty_half0"] = f["empty_half1"] = False
+    if not m:
+        pr.append("hash_t::empty not found")
+    else:
+        for c in _conjuncts(_norm(m.group(1))):
+            mm = re.fullmatch(r"!\s*data\[(\d)\]|data\[(\d)\]\s*==\s*0", c)
+            if mm:
+                f["empty_half%s" % (mm.group(1) or mm.group(2))] = True
+            else:
+                pr.append("hash_t::empty: conjunct %r outside subset" % c)
+    # ---- method bodies
+    bodies = {}
+    for name, ret, params, body in method_defs(cc):
+        key = name
+        if name == "clear":
+            key = "clear_one" if params.strip() else "clear"
+        bodies[key] = (_norm(body), _norm(params))
+    # constructor
+    m = re.search(r"cache::cache\s*\(\s*unsigned\s+(\w+)\s*\)\s*:(.*?)\{", cc, re.S)
+    init = _norm(m.group(2)) if m else ""
+    b = m.group(1) if m else "bits"
+    f["ctor_seal_one"] = bool(re.search(r"k_mask\(\(1ull << %s\) - 1\)" % b, init) and
+                              re.search(r"table_\(1ull << %s\)" % b, init) and re.search(r"seal_\(1\)", init))
+    if not f["ctor_seal_one"]:
+        pr.append("constructor initialisers outside subset: %r" % init)
+    # index
+    body = bodies.get("index", ("", ""))[0]
+    m = re.fullmatch(r"return (\w+)\.data\[(\d)\]( & k_mask)?;", body)
+    if not m:
+        pr.append("index(): %r outside subset" % body)
+        f["index_half"], f["index_mask"] = 0, True
+    else:
+        f["index_half"], f["index_mask"] = int(m.group(2)), bool(m.group(3))
+    lockre = r"^std::\w+ lock\(mutex_\); ?"
+    # find
+    body = re.sub(lockre, "", bodies.get("find", ("", ""))[0])
+    m = re.fullmatch(r"const slot &(\w+)\(table_\[index\((\w+)\)\]\); const bool (\w+)\((.*)\); "
+                     r"if \(\3\) return \1\.fitness; return \{\};", body)
+    f["find_seal"], f["find_key"] = False, []
+    if not m:
+        pr.append("find(): body outside subset: %r" % body[:200])
+    else:
+        sv, hv = m.group(1), m.group(2)
+        for c in _conjuncts(m.group(4)):
+            sd = _eq_sides(c)
+            if sd and set(sd) == {"seal_", sv + ".seal"}:
+                f["find_seal"] = True
+            elif sd and set(sd) == {hv, sv + ".hash"}:
+                f["find_key"].append("KEq")
+            elif sd and set(sd) == {hv + ".data[0]", sv + ".hash.data[0]"}:
+                f["find_key"].append("KHalf0")
+            elif sd and set(sd) == {hv + ".data[1]", sv + ".hash.data[1]"}:
+                f["find_key"].append("KHalf1")
+            elif re.fullmatch(r"!\(\((%s\.data\[0\] \^ %s\.hash\.data\[0\]|%s\.hash\.data\[0\] \^ %s\.data\[0\])\) & ~k_mask\)"
+                              % (hv, sv, sv, hv), c):
+                f["find_key"].append("KHigh0")
+            else:
+                pr.append("find(): conjunct %r outside subset" % c)
+    # insert
+    body = re.sub(lockre, "", bodies.get("insert", ("", ""))[0])
+    par = bodies.get("insert", ("", ""))[1]
+    m = re.fullmatch(r"const hash_t &(\w+), const fitness_t &(\w+)", par)
+    hv, fv = (m.group(1), m.group(2)) if m else ("h", "fitness")
+    m = re.fullmatch(r"slot (\w+); (.*?)table_\[index\(\1\.hash\)\] = \1;", body)
+    f["ins_hash"] = f["ins_fit"] = f["ins_seal"] = False
+    if not m:
+        pr.append("insert(): body outside subset: %r" % body[:200])
+    else:
+        sv = m.group(1)
+        for st in [x.strip() for x in m.group(2).split(";") if x.strip()]:
+            st = _norm(st)
+            if st == "%s.hash = %s" % (sv, hv):
+                f["ins_hash"] = True
+            elif st == "%s.fitness = %s" % (sv, fv):
+                f["ins_fit"] = True
+            elif st == "%s.seal = seal_" % sv:
+                f["ins_seal"] = True
+            else:
+                pr.append("insert(): statement %r outside subset" % st)
+    # clear()
+    body = re.sub(lockre, "", bodies.get("clear", ("", ""))[0])
+    if re.fullmatch(r"if \(\+\+seal_ == 0\) \{ for \(auto &(\w+) : table_\) \1\.seal = 0; seal_ = 1; \}", body):
+        f["clear"] = "CkIncReset"
+    elif body in ("++seal_;", "seal_++;", "seal_ += 1;"):
+        f["clear"] = "CkInc"
+    elif body == "":
+        f["clear"] = "CkNone"
+    else:
+        f["clear"] = "CkIncReset"
+        pr.append("clear(): body outside subset: %r" % body[:200])
+    # clear(key)
+    body = re.sub(lockre, "", bodies.get("clear_one", ("", ""))[0])
+    if re.fullmatch(r"table_\[index\(\w+\)\]\.hash = hash_t\(\);", body):
+        f["clear_one"] = "CoHash"
+    elif re.fullmatch(r"table_\[index\(\w+\)\]\.seal = 0;", body):
+        f["clear_one"] = "CoSeal"
+    elif body == "":
+        f["clear_one"] = "CoNone"
+    else:
+        f["clear_one"] = "CoHash"
+        pr.append("clear(key): body outside subset: %r" % body[:200])
+    # save
+    body = re.sub(lockre, "", bodies.get("save", ("", ""))[0])
+    m = re.fullmatch(r"out << seal_ << ' ' << '\\n'; std::size_t (\w+)\(0\); for \(const auto &(\w+) : table_\) "
+                     r"if \((.*?)\) \+\+\1; out << \1 << '\\n'; for \(const auto &(\w+) : table_\) if \((.*?)\) "
+                     r"\{ \4\.hash\.save\(out\); \4\.fitness\.save\(out\); \} return out\.good\(\);", body)
+
+    def live(cond, sv, what):
+        t = {"seal": False, "key": False, "fit": False}
+        for c in _conjuncts(cond):
+            sd = _eq_sides(c)
+            if sd and set(sd) == {"seal_", sv + ".seal"}:
+                t["seal"] = True
+            elif c == "!%s.hash.empty()" % sv:
+                t["key"] = True
+            elif c in ("%s.fitness.size()" % sv, "%s.fitness.size() > 0" % sv, "%s.fitness.size() != 0" % sv):
+                t["fit"] = True
+            else:
+                pr.append("save(): %s conjunct %r outside subset" % (what, c))
+        return t
+    if not m:
+        pr.append("save(): body outside subset: %r" % body[:300])
+        f["save_count"] = f["save_write"] = {"seal": True, "key": True, "fit": True}
+    else:
+        f["save_count"] = live(m.group(3), m.group(2), "count")
+        f["save_write"] = live(m.group(5), m.group(4), "write")
+    # load
+    body = re.sub(lockre, "", bodies.get("load", ("", ""))[0])
+    m = re.fullmatch(r"decltype\(seal_\) (\w+); if \(!\(in >> \1\)\) return false; std::size_t (\w+); "
+                     r"if \(!\(in >> \2\)\) return false; for \(decltype\(\2\) (\w+)\(0\); \3 < \2; \+\+\3\) \{ slot (\w+); "
+                     r"(\4\.seal = \1; )?if \(!\4\.hash\.load\(in\)\) return false; if \(!\4\.fitness\.load\(in\)\) return false; "
+                     r"table_\[index\(\4\.hash\)\] = \4; \} (seal_ = \1; )?return true;", body)
+    if not m:
+        pr.append("load(): body outside subset: %r" % body[:300])
+        f["load_slot_seal"] = f["load_sets_seal"] = True
+    else:
+        f["load_slot_seal"], f["load_sets_seal"] = bool(m.group(5)), bool(m.group(6))
+    return f, pr
+
+
+def generate_table(snap):
+    """(text or None, problems, facts)"""
+    try:
+        f, pr = table_facts(snap)
+    except Exception as e:      # a parse accident is a translator failure, never a verdict
+        return None, ["translator exception: %r" % (e,)], {}
+    if pr:
+        return None, pr, f
+    b = lambda x: "true" if x else "false"
+    lt = lambda t: "(mklt %s %s %s)" % (b(t["seal"]), b(t["key"]), b(t["fit"]))
+    lines = ["(* GENERATED by translate/cache_proto.py from src/kernel/cache.cc, cache_hash.h -- do not edit.",
+             "   The table-level facts of the cache the C04 model is built from. *)",
+             "From Coq Require Import List.",
+             "From VV Require Import Cache.TableTypes.",
+             "Import ListNotations.",
+             "",
+             "Definition gen_facts : facts :=",
+             "  mkfacts",
+             "    %s  (* find tests seal_ == s.seal *)" % b(f["find_seal"]),
+             "    [%s]  (* find: conjuncts about the key *)" % "; ".join(f["find_key"]),
+             "    %s %s  (* hash_t::operator== compares data[0], data[1] *)" % (b(f["eq_half0"]), b(f["eq_half1"])),
+             "    %s %s  (* hash_t::empty tests data[0], data[1] *)" % (b(f["empty_half0"]), b(f["empty_half1"])),
+             "    %s %s  (* index(): uses data[1]?, masked with k_mask = 2^bits-1? *)" % (b(f["index_half"] == 1), b(f["index_mask"])),
+             "    %s %s %s  (* insert stamps hash, fitness, seal := seal_ *)" % (b(f["ins_hash"]), b(f["ins_fit"]), b(f["ins_seal"])),
+             "    %s  (* clear() *)" % f["clear"],
+             "    %s  (* clear(key) *)" % f["clear_one"],
+             "    %s %s  (* save: test of the counting loop, of the writing loop (seal, key, fitness) *)" % (lt(f["save_count"]), lt(f["save_write"])),
+             "    %s %s  (* load: s.seal = t_seal; seal_ = t_seal *)" % (b(f["load_slot_seal"]), b(f["load_sets_seal"])),
+             "    %s.  (* constructor: k_mask, table size, seal_(1) *)" % b(f["ctor_seal_one"]),
+             ""]
+    return "\n".join(lines), [], f
+
+
 if __name__ == "__main__":
     import sys
     text, problems, infos = generate(sys.argv[1] if len(sys.argv) > 1 else "/repo/src")
+    print(text if text else problems)
+    text, problems, facts = generate_table(sys.argv[1] if len(sys.argv) > 1 else "/repo/src")
     print(text if text else problems)
